@@ -278,7 +278,49 @@ impl Scenario for C13 {
         let targets: [(&Address, &str, &[&str]); 1] = [(&ctx.gw, "/repo/contracts/axelar-gateway/src", &axmc::inventory::GATEWAY_KNOWN)];
         let owner = [ctx.owner.clone()];
         let sender = [ctx.p[0].clone()];
-        for (contract, func, args) in axmc::inventory::unknown_calls(w, "C13", &targets, &addresses, 64) {
+        let everybody = [ctx.p[0].clone(), ctx.owner.clone(), ctx.caller.clone()];
+        let unknown = axmc::inventory::unknown_calls(w, "C13", &targets, &addresses, 64);
+        // an announcement made by any gateway function carries the payload whose Keccak-256 it names
+        let exact = |events: &Vec<Ev>, func: &str, how: &str, out: &mut StepOut| {
+            for e in events.iter().filter(|e| e.name() == "contract_called") {
+                let bytes: Vec<Vec<u8>> = e.leaves().iter().filter_map(|v| if let soroban_sdk::xdr::ScVal::Bytes(b) = v { Some(b.to_vec()) } else { None }).collect();
+                let ok = bytes.len() >= 2 && bytes[bytes.len() - 2].len() == 32 && bytes[bytes.len() - 2] == keccak(&bytes[bytes.len() - 1]).to_vec();
+                out.expect(ok, "unknown-entry-point.announcement-not-exact", || {
+                    format!("gateway function `{}` (not among the known entry points), called {}, announced a call whose hash is not the Keccak-256 of the payload it carries: {:?}", func, how, e)
+                });
+            }
+        };
+        for (contract, func, args) in unknown.iter().cloned() {
+            // with everybody's authorisation: what is announced must be exact; and whatever it
+            // prepared, nothing may be announced afterwards by a function called with nobody's
+            let snap = w.snap();
+            let call = w.call(&contract, &func, &args, Auth::By(&everybody));
+            if call.ok {
+                exact(&call.events, &func, "with every principal's authorisation", out);
+                let mid = w.snap();
+                // (a two-step send in which the sender authorises the first step is fine as long as
+                // the second step can only announce in that sender's name)
+                use soroban_sdk::TryFromVal;
+                let authorised: Vec<soroban_sdk::xdr::ScVal> = args
+                    .iter()
+                    .filter_map(|v| soroban_sdk::xdr::ScVal::try_from_val(env, v).ok())
+                    .filter(|v| matches!(v, soroban_sdk::xdr::ScVal::Address(_)))
+                    .collect();
+                for (c2, f2, a2) in unknown.iter() {
+                    let follow = w.call(c2, f2, a2, Auth::Nobody);
+                    let foreign = follow
+                        .events
+                        .iter()
+                        .filter(|e| e.name() == "contract_called")
+                        .filter(|e| e.leaves().iter().find(|v| matches!(v, soroban_sdk::xdr::ScVal::Address(_))).map(|named| !authorised.contains(named)).unwrap_or(true))
+                        .count();
+                    out.expect(!(follow.ok && foreign > 0), "unknown-entry-point.announced-unauthorised", || {
+                        format!("after `{}` (authorised), gateway function `{}` (neither among the known entry points), called with nobody's authorisation, announced {} call(s) in the name of an address the first call never mentioned: {:?}", func, f2, foreign, follow.events.first())
+                    });
+                    w.restore(&mid);
+                }
+            }
+            w.restore(&snap);
             for by_owner in [false, true] {
                 let snap = w.snap();
                 let call = w.call(&contract, &func, &args, if by_owner { Auth::By(&owner) } else { Auth::Nobody });
@@ -289,6 +331,7 @@ impl Scenario for C13 {
                     });
                 }
                 if call.ok {
+                    exact(&call.events, &func, if by_owner { "on the owner's authorisation" } else { "unauthorised" }, out);
                     // whatever that function switched (on the owner's or on nobody's word): an outbound
                     // call that still succeeds must still be announced, exactly once and exactly
                     let payload = vec![0x12u8, 0x34];
@@ -328,7 +371,7 @@ fn main() {
     main_for(|tier| {
         let mut o = Opts::new(tier, 1);
         o.level = "exploration";
-        o.rule = "exhaustive grid from 5 gateway states (fresh, with approvals, after a rotation, after three rotations with retention 1, inside the rotation-delay window after a bypass rotation): sender/authorisation in {principal signing; another principal signing; nobody; principal signing a different call; both signing; contract naming itself as caller; contract naming another address; account-type address authorised / unauthorised; unauthorised direct calls naming the gateway itself, another contract, the gateway's owner} x destination chain {empty, lower-case ASCII, 300 chars, multi-byte, mixed case with surrounding blanks} x destination address {hex, empty, non-ASCII} x payload length {0,1,31,32,33,135,136,137,272,4096,40960,65536,65537,200000} (Keccak rate boundaries; thorough: every length 0..=410 and 16 KiB / 16 KiB+1 / 64 KiB / 64 KiB+1 / 128 KiB / 128 KiB+1 / 1,000,000 for the ASCII destination); in every base state every gateway entry point found in the source tree that is not in the check's inventory is called unauthorised (it must not announce a call) and on the owner's authorisation with arguments built from its parameter types, and an outbound call that succeeds afterwards must still be announced; one case is non-trivial and distinct when its (base state, sender mode, strings, payload) tuple differs".into();
+        o.rule = "exhaustive grid from 5 gateway states (fresh, with approvals, after a rotation, after three rotations with retention 1, inside the rotation-delay window after a bypass rotation): sender/authorisation in {principal signing; another principal signing; nobody; principal signing a different call; both signing; contract naming itself as caller; contract naming another address; account-type address authorised / unauthorised; unauthorised direct calls naming the gateway itself, another contract, the gateway's owner} x destination chain {empty, lower-case ASCII, 300 chars, multi-byte, mixed case with surrounding blanks} x destination address {hex, empty, non-ASCII} x payload length {0,1,31,32,33,135,136,137,272,4096,40960,65536,65537,200000} (Keccak rate boundaries; thorough: every length 0..=410 and 16 KiB / 16 KiB+1 / 64 KiB / 64 KiB+1 / 128 KiB / 128 KiB+1 / 1,000,000 for the ASCII destination); in every base state every gateway entry point found in the source tree that is not in the check's inventory is called unauthorised (it must not announce a call) and on the owner's authorisation with arguments built from its parameter types, and an outbound call that succeeds afterwards must still be announced; such a function is also called with every principal's authorisation: any call it announces must carry the payload whose Keccak-256 it names, and no unknown function called unauthorised right afterwards may announce a call in the name of an address the authorised call did not mention; one case is non-trivial and distinct when its (base state, sender mode, strings, payload) tuple differs".into();
         (C13 { thorough: tier == "thorough" }, o)
     });
 }
